@@ -303,6 +303,39 @@ func runOrigin(w *world, j *judge, cs childSpec) error {
 	return w.setDev(false)
 }
 
+// runACRM: every method x every Access-Control-Request-Method value on requests that are
+// not OPTIONS. The method class is fixed by the request's own method; the header only
+// counts for OPTIONS.
+func runACRM(w *world, j *judge, cs childSpec) error {
+	tk := makeTableKeys(cs.Seed, time.Now(), false)
+	if err := w.setKeys(tk.List); err != nil {
+		return err
+	}
+	all := onePerClass(tk)
+	var mine []credVal
+	for i, cv := range all {
+		if i%cs.NShards == cs.Shard {
+			mine = append(mine, cv)
+		}
+	}
+	ps, err := w.prepareAll(j, mine, tk)
+	if err != nil {
+		return err
+	}
+	targets := append(plainTargets(), endpointTargets()...)
+	vars := acrmVars()
+	w.b.Count("table_cells_planned", int64(len(ps)*len(targets)*len(vars)))
+	for _, p := range ps {
+		for _, t := range targets {
+			for _, mv := range vars {
+				j.tableCell("acrm", p, t, mv, "")
+				j.b.Count("acrm_cells", 1)
+			}
+		}
+	}
+	return nil
+}
+
 func runDev(w *world, j *judge, cs childSpec) error {
 	tk := makeTableKeys(cs.Seed, time.Now(), false)
 	if err := w.setKeys(tk.List); err != nil {
